@@ -29,10 +29,18 @@ def _run(names, cons):
         eps.append(EP(n, digest))
     saved = cc.get_entrypoints
     cc.get_entrypoints = lambda group: list(eps)
+    declared = {ep.name: (frozenset(getattr(ep._obj, "__requirements__").before), frozenset(getattr(ep._obj, "__requirements__").after)) for ep in eps if hasattr(ep._obj, "__requirements__")}
     try:
-        return cc.load_section_plugins("x")
+        res = cc.load_section_plugins("x")
     finally:
         cc.get_entrypoints = saved
+    # frame: loading must not rewrite the constraints the plugins declare (they are shared with every later load)
+    for ep in eps:
+        if ep.name in declared:
+            r = getattr(ep._obj, "__requirements__")
+            if (frozenset(r.before), frozenset(r.after)) != declared[ep.name]:
+                raise AssertionError("load_section_plugins modified the declared constraints of plugin %r: %r -> (%r, %r)" % (ep.name, declared[ep.name], set(r.before), set(r.after)))
+    return res
 
 
 def _cyclic(names, cons):
